@@ -271,7 +271,8 @@ seeds = '''
 %d changes written by fresh sub-agents that saw only a property's text and a scratch worktree; each was vetted by
 me in a scratch worktree (`bin/vetseed`: demo passes on the clean tree, fails with the patch, both builds succeed,
 the baseline suite is unchanged) and is stored as `seeded/<id>/{patch.diff, demo/, meta.json}`. `bin/tryseed` applies
-one to /repo, runs a check and restores /repo. "after ..." in the last column is what had to be added to the
+one to a scratch copy of /repo and runs a check against the copy (`VERIF_REPO`, a `-modfile` whose replace directive
+points at the copy), so /repo is never touched and checks running elsewhere are not disturbed. "after ..." in the last column is what had to be added to the
 machinery to catch a change that was missed at first.
 
 | seed | what it changes | caught by |
